@@ -294,6 +294,14 @@ def specC08 (c : Cfg) (hooks : List Hook) (init : State) (steps : List (Op × St
         let fnd1 : Option Verdict := fnd <|>
           ((checkTracks c post (fun _ => false) (fun t p => holes'.contains (t, p))).map fun why =>
             .finding "failed-sync-leaves-valid-links-stale" s!"step {n}: {why} (a source update raised earlier from inside _sync_refs)")
+          <|> ((match keysOf op with
+                | some (t, kvs) =>
+                  if ok then
+                    (kvs.find? fun kv => ((c.decl t kv.1).map (·.readonly)).getD false && (refOf post t kv.1).isSome).map fun kv =>
+                      Verdict.finding "readonly-parameter-linked-through-skipping-reference"
+                        s!"step {n}: T{t}.p{kv.1} is readonly, yet the assignment of a reference that raised Skip was accepted and made it linked (no validation, no guard on that path)"
+                  else none
+                | none => none))
           <|> ((checkTracks c post (fun d => failed'.contains d)).map fun why =>
             .finding "watcher-assignment-during-own-sync-keeps-link" s!"step {n}: {why} (a watcher assigned it a plain value while it was being synced: the link was kept)")
         let stack' := match op, ok with
